@@ -44,6 +44,17 @@
 (* error (the marker stays), AllocateNodeID goes on with the next slot.  A fault never hits   *)
 (* the model's last attempt (the real loop has 98 more).                                      *)
 (* A node whose allocation failed holds nothing: its Release (NRelNoop) touches no key.       *)
+(* Transient renewal faults (MaxRenewFails > 0): a heartbeat Set may fail (RenewFail) when    *)
+(* the previous renewal of that node succeeded - never twice in a row, so the claim (TTL = 3   *)
+(* periods) is never in danger; att[n] counts the failures over the node's lifetime.  The      *)
+(* heartbeat goes on after a failure: ClaimNeverExpiresUnderLiveHolder still holds.            *)
+(* Lapse (gen, WithLapse): a long time passes (more than any cache default TTL, far less than  *)
+(* the 30 days of the markers): markers written with "no expiry" (ttl 0) or 30 days stay.      *)
+(*                                                                                            *)
+(* Mode = "uuid" : idgen.UUIDGenerator (connection, tunnel, mapping-instance ids): no store;  *)
+(*   an id is fresh by construction (UGen hands out number |used|+1) as long as the entropy    *)
+(*   source works; while it fails (EntropyFail .. EntropyHeal, fk = "Entropy") a generation     *)
+(*   hands out NOTHING (error or abort) - in particular not a constant.                        *)
 (* The pattern of pre-existing ids (`taken`) and the instance layout are chosen in Init, so   *)
 (* one TLC run covers all patterns.  Ghost flags name the deviations:                         *)
 (*   nonAtomic  a fallback Set wrote a marker that another instance had written since Exists  *)
@@ -53,7 +64,7 @@ EXTENDS Naturals, Sequences, FiniteSets, TLC, Json
 
 CONSTANTS Mode,         \* "gen" | "node"
           Procs,        \* gen: callers "p1".."p3";  node: nodes
-          HasNX,        \* gen: the store offers SetNX
+          HasNX,        \* gen: "yes" | "no": the store offers SetNX; "both": chosen in Init (one run covers both stores)
           NCands,       \* gen: candidate ids 1..NCands (what the scripted random source can return)
           MaxAttempts,  \* gen: attempts per Generate
           MaxCalls,     \* API calls per process (gen)
@@ -63,10 +74,13 @@ CONSTANTS Mode,         \* "gen" | "node"
           Wiring,       \* node: "split" | "same"
           TTLTicks,     \* node: claim TTL in renew periods (90 s / 30 s = 3)
           MaxTicks,     \* node: bound on elapsed periods (0 = untimed interleavings only)
-          Faults,       \* kinds of store operation of which one may fail ({} = no fault)
+          Faults,       \* kinds of store operation of which one may fail ({} = no fault); uuid: {"Entropy"}
+          MaxRenewFails,\* node: bound on transient heartbeat failures per node (0 = none)
+          WithLapse,    \* gen: TRUE = the Lapse action (long time passes once) is enabled
           Emit
 
-VARIABLES layout, taken, fk,                   \* chosen in Init (fk: the kind of operation that may fail once, or "none")
+VARIABLES layout, taken, fk, hasnx,            \* chosen in Init (fk: the kind of operation that may fail once, or "none";
+                                               \*                 hasnx: the store offers SetNX)
           farm,                                \* "idle": the fault has not happened yet, "spent": it has
           used,                                \* gen: ids whose marker key exists in the store
           pc, cand, att, held, calls,          \* per process
@@ -78,7 +92,7 @@ VARIABLES layout, taken, fk,                   \* chosen in Init (fk: the kind o
           hist
 genv  == <<used, cand, att, held, calls, mu, dup, tookTaken, nonAtomic>>
 nodev == <<sh, age, hold, renewed, ticks, expLive, wrongTier, ndup, nforeign>>
-fv    == <<fk, farm>>
+fv    == <<fk, farm, hasnx>>
 vars  == <<layout, taken, fv, pc, genv, nodev, hist>>
 view  == <<layout, taken, fv, pc, genv, nodev>>
 
@@ -88,9 +102,14 @@ MuDom == Procs \cup {"g1"}
 InstOf(p) == IF layout = "same" THEN "g1"
              ELSE IF layout = "mixed" /\ p \in {"p1", "p2"} THEN "g1" ELSE p
 
+\* the fault kinds that exist on the chosen store (SetNX path: SetNX, Delete; fallback path: Exists, Set, Delete)
+FaultsFor(nx) == LET f == IF Mode = "gen" THEN Faults \cap (IF nx THEN {"SetNX", "Delete"} ELSE {"Exists", "Set", "Delete"}) ELSE Faults
+                 IN IF f = {} THEN {"none"} ELSE f
+
 Init == /\ layout \in (IF Mode = "gen" THEN Layouts ELSE {"nodes"})
-        /\ taken \in (IF Mode = "gen" THEN SUBSET Cands ELSE SUBSET Slots)
-        /\ fk \in (IF Faults = {} THEN {"none"} ELSE Faults) /\ farm = "idle"
+        /\ hasnx \in (IF HasNX = "both" THEN BOOLEAN ELSE {HasNX = "yes"})
+        /\ fk \in FaultsFor(hasnx) /\ farm = "idle"
+        /\ taken \in (IF Mode = "gen" THEN SUBSET Cands ELSE IF Mode = "node" /\ fk # "Entropy" THEN SUBSET Slots ELSE {{}})
         /\ used = (IF Mode = "gen" THEN taken ELSE {})
         /\ pc = [p \in Procs |-> "idle"] /\ cand = [p \in Procs |-> 0] /\ att = [p \in Procs |-> 0]
         /\ held = [p \in Procs |-> {}] /\ calls = [p \in Procs |-> 0]
@@ -99,7 +118,7 @@ Init == /\ layout \in (IF Mode = "gen" THEN Layouts ELSE {"nodes"})
         /\ sh = [s \in Slots |-> Mode = "node" /\ s \in taken] /\ age = [s \in Slots |-> 0]
         /\ hold = [p \in Procs |-> 0] /\ renewed = [p \in Procs |-> FALSE] /\ ticks = 0
         /\ expLive = FALSE /\ wrongTier = FALSE /\ ndup = FALSE /\ nforeign = FALSE
-        /\ hist = [lay |-> layout, tk |-> taken, fk |-> fk, st |-> <<>>]
+        /\ hist = [lay |-> layout, tk |-> taken, fk |-> fk, nx |-> hasnx, st |-> <<>>]
 
 Out(h) == IF Emit THEN PrintT("BEH " \o ToJson(h)) ELSE TRUE
 \* who obtained an instance mutex in this step ("" = nobody); at most one mutex changes per step
@@ -112,10 +131,18 @@ Log(p, a, c, r) == /\ hist' = [hist EXCEPT !.st = Append(hist.st,
                    /\ Out(hist')
 
 \* the single store fault can hit this operation of kind k now
-CanFail(k) == fk = k /\ farm = "idle"
-Spend == farm' = "spent" /\ fk' = fk
+CanFail(k) == fk = k /\ farm = "idle" /\ ticks = 0     \* (gen: a behaviour has a fault or a Lapse, not both)
+Spend == farm' = "spent" /\ fk' = fk /\ hasnx' = hasnx
 
 \* =========================== generator (Mode = "gen") =====================================
+\* a long time passes (once); recorded in `ticks`, which gen mode does not use otherwise
+Lapse ==
+  /\ Mode = "gen" /\ WithLapse /\ ticks = 0 /\ used # {}
+  /\ farm = "idle" /\ \A p \in Procs : pc[p] = "idle"          \* between calls
+  /\ ticks' = 1
+  /\ UNCHANGED <<layout, taken, fv, pc, genv, sh, age, hold, renewed, expLive, wrongTier, ndup, nforeign>>
+  /\ Log("time", "Lapse", 0, "")
+
 Waiters(i) == {q \in Procs : pc[q] = "W" /\ InstOf(q) = i}
 
 \* p asks for the mutex of its instance (tryMarkAsUsed, fallback path)
@@ -143,7 +170,7 @@ RetErr(p) == /\ calls' = [calls EXCEPT ![p] = calls[p] + 1] /\ UNCHANGED <<held,
 CallGen(p, c) ==
   /\ Mode = "gen" /\ pc[p] = "idle" /\ calls[p] < MaxCalls
   /\ cand' = [cand EXCEPT ![p] = c] /\ att' = [att EXCEPT ![p] = 1]
-  /\ IF HasNX THEN pc' = [pc EXCEPT ![p] = "nx"] /\ mu' = mu ELSE Enter(p)
+  /\ IF hasnx THEN pc' = [pc EXCEPT ![p] = "nx"] /\ mu' = mu ELSE Enter(p)
   /\ UNCHANGED <<layout, taken, fv, used, held, calls, dup, tookTaken, nonAtomic, nodev>>
   /\ Log(p, "CallGen", c, "")
 
@@ -216,12 +243,29 @@ Del(p) ==
   /\ \/ used' = used \ {cand[p]} /\ UNCHANGED fv /\ Log(p, "Del", 0, "")
      \/ CanFail("Delete") /\ Spend /\ used' = used /\ Log(p, "Del", 0, "fault")   \* Release returns the error, the marker stays
 
+\* =========================== UUID ids ====================================================
+\* The UUID generators need no store; to save a TLC run they are also a sub-model of Mode "node":
+\* an initial state with fk = "Entropy" runs ONLY these actions, every other one only the allocator's.
+UuidOn == Mode = "uuid" \/ (Mode = "node" /\ fk = "Entropy")
+EntropyFail == /\ UuidOn /\ fk = "Entropy" /\ farm = "idle" /\ farm' = "failing" /\ fk' = fk /\ hasnx' = hasnx
+               /\ UNCHANGED <<layout, taken, pc, genv, nodev>> /\ Log("env", "EntropyFail", 0, "")
+EntropyHeal == /\ UuidOn /\ farm = "failing" /\ farm' = "spent" /\ fk' = fk /\ hasnx' = hasnx
+               /\ UNCHANGED <<layout, taken, pc, genv, nodev>> /\ Log("env", "EntropyHeal", 0, "")
+\* one Generate call of a UUID generator (it touches no store: one step)
+UGen(p) ==
+  /\ UuidOn /\ calls[p] < MaxCalls
+  /\ UNCHANGED <<layout, taken, fv, pc, cand, att, mu, nonAtomic, nodev>>
+  /\ IF farm = "failing"
+     THEN RetErr(p) /\ UNCHANGED used /\ Log(p, "UGen", 0, "ferr")
+     ELSE LET x == Cardinality(used) + 1 IN
+          /\ x \in Cands /\ used' = used \cup {x} /\ RetOk(p, x) /\ Log(p, "UGen", x, "ok")
+
 \* =========================== node ids (Mode = "node") =====================================
 Live(n) == pc[n] = "held"                                \* allocated, heartbeat running
 RenewHitsClaim == RenewTier = "claim" \/ Wiring = "same"
 
 CallAlloc(n) ==
-  /\ Mode = "node" /\ pc[n] = "idle"
+  /\ Mode = "node" /\ fk # "Entropy" /\ pc[n] = "idle"
   /\ pc' = [pc EXCEPT ![n] = "claim"] /\ cand' = [cand EXCEPT ![n] = 1]
   /\ UNCHANGED <<layout, taken, fv, used, att, held, calls, mu, dup, tookTaken, nonAtomic, nodev>>
   /\ Log(n, "CallAlloc", 0, "")
@@ -267,8 +311,20 @@ Renew(n) ==
   /\ IF RenewHitsClaim THEN sh' = [sh EXCEPT ![hold[n]] = TRUE] /\ age' = [age EXCEPT ![hold[n]] = 0]   \* plain Set: unconditional
                        ELSE UNCHANGED <<sh, age>>                                                     \* written to the node-local cache
   /\ wrongTier' = (wrongTier \/ ~RenewHitsClaim)                                                      \* deviation
-  /\ UNCHANGED <<layout, taken, fv, pc, genv, hold, ticks, expLive, ndup, nforeign>>
+  \* calls[n] (node mode, with transient faults): successful renewals since the last failed one, capped
+  /\ calls' = IF MaxRenewFails > 0 /\ att[n] > 0 /\ calls[n] < MaxCalls THEN [calls EXCEPT ![n] = calls[n] + 1] ELSE calls
+  /\ UNCHANGED <<layout, taken, fv, pc, used, cand, att, held, mu, dup, tookTaken, nonAtomic, hold, ticks, expLive, ndup, nforeign>>
   /\ Log(n, "Renew", hold[n], IF RenewHitsClaim THEN "claim" ELSE "local")
+
+\* the heartbeat's Set fails with a transient store error; the previous renewal had succeeded
+RenewFail(n) ==
+  /\ Mode = "node" /\ MaxTicks > 0 /\ Live(n) /\ ~renewed[n] /\ RenewHitsClaim
+  /\ att[n] < MaxRenewFails /\ age[hold[n]] <= 1
+  /\ renewed' = [renewed EXCEPT ![n] = TRUE] /\ att' = [att EXCEPT ![n] = att[n] + 1]
+  /\ calls' = [calls EXCEPT ![n] = 0]
+  /\ UNCHANGED <<layout, taken, fv, pc, used, cand, held, mu, dup, tookTaken, nonAtomic,
+                 sh, age, hold, ticks, expLive, wrongTier, ndup, nforeign>>
+  /\ Log(n, "Renew", hold[n], "fail")
 
 Tick ==
   /\ Mode = "node" /\ ticks < MaxTicks
@@ -311,18 +367,19 @@ Crash(n) ==
 Next == \/ \E p \in Procs : \/ \E c \in Cands : CallGen(p, c)
                             \/ NX(p) \/ Ex(p) \/ FSet(p) \/ Del(p)
                             \/ \E x \in Cands : CallRel(p, x)
-                            \/ CallAlloc(p) \/ Claim(p) \/ Renew(p) \/ NCallRel(p) \/ NRelNoop(p) \/ NDel(p) \/ Crash(p)
-        \/ Tick
+                            \/ UGen(p)
+                            \/ CallAlloc(p) \/ Claim(p) \/ Renew(p) \/ RenewFail(p) \/ NCallRel(p) \/ NRelNoop(p) \/ NDel(p) \/ Crash(p)
+        \/ Tick \/ Lapse \/ EntropyFail \/ EntropyHeal
         \/ \E s \in Slots : SlotExpire(s)
 Spec == Init /\ [][Next]_vars
 
 \* =========================== properties (C15) =============================================
 TypeOK == /\ used \subseteq Cands /\ taken \subseteq (Cands \cup Slots)
           /\ \A p \in Procs : /\ held[p] \subseteq Cands /\ calls[p] \in 0..MaxCalls
-                              /\ att[p] \in 0..MaxAttempts /\ hold[p] \in 0..NSlots
+                              /\ att[p] \in 0..(MaxAttempts + MaxRenewFails) /\ hold[p] \in 0..NSlots
           /\ \A i \in MuDom : mu[i] \in Procs \cup {"none"}
           /\ \A i \in MuDom : mu[i] = "none" => Waiters(i) = {}          \* a free mutex has no waiters
-          /\ farm \in {"idle", "spent"} /\ fk \in Faults \cup {"none"}
+          /\ farm \in {"idle", "failing", "spent"} /\ fk \in Faults \cup {"none"} /\ hasnx \in BOOLEAN
 \* (1) no two un-released successful generations are equal
 Unique       == ~dup
 HeldDisjoint == \A p, q \in Procs : p # q => held[p] \cap held[q] = {}
@@ -335,6 +392,9 @@ HeldMarked   == ~dup => \A p \in Procs : held[p] \subseteq used
 Exhaustion   == (taken = Cands /\ Mode = "gen") => \A p \in Procs : held[p] = {}
 \* the only route to a duplicate on a store without SetNX is the named deviation, and a single
 \* instance (its own mutex) is safe
+\* one run over both kinds of store
+GenOK == IF hasnx THEN Unique /\ HeldDisjoint /\ NoTaken /\ HeldMarked /\ Exhaustion
+                  ELSE NoTaken /\ Exhaustion /\ (Unique \/ nonAtomic) /\ (layout = "same" => (Unique /\ HeldMarked))
 FallbackOnlyDeviation == (Unique \/ nonAtomic) /\ (layout = "same" => (Unique /\ HeldMarked))
 \* node ids
 \* a node whose allocation failed holds nothing (so its Release has nothing to delete)
